@@ -129,15 +129,15 @@ Print Assumptions fresnel_layered_transmission_le_1_refuted.
 Theorem propagate_is_one_construction : forall filt,
   (forall self signal pol fres freqs atten_vals,
      BasicRayTracePath_propagate_both filt self signal pol fres freqs atten_vals
-     = propagate_spec filt (Path_emitted_direction self) (Path_received_direction self) (Path_tof self) signal pol
+     = propagate_spec filt (Path_emitted_direction self) (Path_received_direction self) (Path_phi self) (Path_tof self) signal pol
          (fun f => cscale (np_interp f freqs atten_vals) (fst fres)) (fun f => cscale (np_interp f freqs atten_vals) (snd fres))) /\
   (forall self signal pol fres att,
      UniformRayTracePath_propagate_both filt self signal pol fres att
-     = propagate_spec filt (UPath_emitted_direction self) (UPath_received_direction self) (UPath_tof self) signal pol
+     = propagate_spec filt (UPath_emitted_direction self) (UPath_received_direction self) (UPath_phi self) (UPath_tof self) signal pol
          (fun f => cscale (att f) (fst fres)) (fun f => cscale (att f) (snd fres))) /\
   (forall self signal pol fres att,
      LayeredRayTracePath_propagate_both filt self signal pol fres att
-     = propagate_spec filt (LPath_emitted_direction self) (LPath_received_direction self) (LPath_tof self) signal pol
+     = propagate_spec filt (LPath_emitted_direction self) (LPath_received_direction self) (LPath_phi self) (LPath_tof self) signal pol
          (fun f => cscale (att f) (fst fres)) (fun f => cscale (att f) (snd fres))).
 Proof. exact propagate_is_one_construction_stmt. Qed.
 Print Assumptions propagate_is_one_construction.
@@ -145,8 +145,8 @@ Print Assumptions propagate_is_one_construction.
 Theorem propagate_grid :
   forall F : list R -> list R -> (R -> R * R) -> bool -> list R,
   (forall times xs g fr, (length times <= 2 * length xs)%nat -> length (F times xs g fr) = length times) ->
-  forall e r tof Hs Hp signal pol, wf signal ->
-  let '((os, op), _) := propagate_spec (sig_filter_F F) e r tof signal pol Hs Hp in
+  forall e r phi tof Hs Hp signal pol, wf signal ->
+  let '((os, op), _) := propagate_spec (sig_filter_F F) e r phi tof signal pol Hs Hp in
   sg_times os = map (fun t => t + tof) (sg_times signal) /\ sg_times op = map (fun t => t + tof) (sg_times signal) /\
   length (sg_values os) = length (sg_times signal) /\ length (sg_values op) = length (sg_times signal).
 Proof. exact propagate_grid_stmt. Qed.
@@ -157,17 +157,17 @@ Theorem propagate_linear :
   (forall times xs g fr, (length times <= 2 * length xs)%nat -> length (F times xs g fr) = length times) ->
   (forall times xs ys a b g fr n, length xs = length ys -> length times = length xs -> (n < length times)%nat ->
      nth n (F times (lincomb a b xs ys) g fr) 0 = a * nth n (F times xs g fr) 0 + b * nth n (F times ys g fr) 0) ->
-  forall e r tof Hs Hp,
+  forall e r phi tof Hs Hp,
   (forall a b x y pol, wf x -> sg_times y = sg_times x -> length (sg_values y) = length (sg_values x) ->
      let sxy := mkSig (sg_times x) (lincomb a b (sg_values x) (sg_values y)) (sg_type x) in
-     let '((os, op), _) := propagate_spec (sig_filter_F F) e r tof sxy pol Hs Hp in
-     let '((xs_, xp_), _) := propagate_spec (sig_filter_F F) e r tof x pol Hs Hp in
-     let '((ys_, yp_), _) := propagate_spec (sig_filter_F F) e r tof y pol Hs Hp in
+     let '((os, op), _) := propagate_spec (sig_filter_F F) e r phi tof sxy pol Hs Hp in
+     let '((xs_, xp_), _) := propagate_spec (sig_filter_F F) e r phi tof x pol Hs Hp in
+     let '((ys_, yp_), _) := propagate_spec (sig_filter_F F) e r phi tof y pol Hs Hp in
      sg_values os = lincomb a b (sg_values xs_) (sg_values ys_) /\ sg_values op = lincomb a b (sg_values xp_) (sg_values yp_)) /\
   (forall a b x p q, wf x ->
-     let '((os, op), _) := propagate_spec (sig_filter_F F) e r tof x (vadd (vscale a p) (vscale b q)) Hs Hp in
-     let '((ps_, pp_), _) := propagate_spec (sig_filter_F F) e r tof x p Hs Hp in
-     let '((qs_, qp_), _) := propagate_spec (sig_filter_F F) e r tof x q Hs Hp in
+     let '((os, op), _) := propagate_spec (sig_filter_F F) e r phi tof x (vadd (vscale a p) (vscale b q)) Hs Hp in
+     let '((ps_, pp_), _) := propagate_spec (sig_filter_F F) e r phi tof x p Hs Hp in
+     let '((qs_, qp_), _) := propagate_spec (sig_filter_F F) e r phi tof x q Hs Hp in
      sg_values os = lincomb a b (sg_values ps_) (sg_values qs_) /\ sg_values op = lincomb a b (sg_values pp_) (sg_values qp_)).
 Proof. exact propagate_linear_stmt. Qed.
 Print Assumptions propagate_linear.
@@ -175,9 +175,9 @@ Print Assumptions propagate_linear.
 Theorem propagate_passive :
   forall F : list R -> list R -> (R -> R * R) -> bool -> list R,
   (forall times xs g fr, length times = length xs -> (forall u, cabs (g u) <= 1) -> energy (F times xs g fr) <= energy xs) ->
-  forall e r tof Hs Hp signal pol, wf signal ->
+  forall e r phi tof Hs Hp signal pol, wf signal ->
   (forall u, cabs (Hs u) <= 1) -> (forall u, cabs (Hp u) <= 1) ->
-  let '((os, op), _) := propagate_spec (sig_filter_F F) e r tof signal pol Hs Hp in
+  let '((os, op), _) := propagate_spec (sig_filter_F F) e r phi tof signal pol Hs Hp in
   energy (sg_values os) + energy (sg_values op) <= vdot pol pol * energy (sg_values signal).
 Proof. exact propagate_passive_stmt. Qed.
 Print Assumptions propagate_passive.
@@ -189,8 +189,10 @@ Proof. exact cabs_cscale_le. Qed.
 Print Assumptions propagate_response_le_1.
 
 (* --- 5. polarization vectors -------------------------------------------------------------------- *)
-Theorem pol_basis : forall e r, vnorm (vcross e zhat) <> 0 -> vdot r r = 1 -> vdot (vcross e zhat) r = 0 ->
-  let u_s0 := vnormalize (vcross e zhat) in
+(* us0 e phi is the s-direction as propagate() builds it: normalize(e x z), and for an exactly
+   vertical ray (sin phi, -cos phi, 0) *)
+Theorem pol_basis : forall e phi r, vnorm e <> 0 -> vdot r r = 1 -> vdot (us0 e phi) r = 0 ->
+  let u_s0 := us0 e phi in
   let u_p0 := vnormalize (vcross u_s0 e) in
   let u_p1 := vnormalize (vcross u_s0 r) in
   vdot u_s0 u_s0 = 1 /\ vdot u_p1 u_p1 = 1 /\ vdot u_s0 u_p1 = 0 /\ vdot u_s0 r = 0 /\ vdot u_p1 r = 0 /\
@@ -198,17 +200,26 @@ Theorem pol_basis : forall e r, vnorm (vcross e zhat) <> 0 -> vdot r r = 1 -> vd
 Proof. exact pol_basis_lemma. Qed.
 Print Assumptions pol_basis.
 
-Theorem pol_amplitudes_le_norm : forall e p,
-  let u_s0 := vnormalize (vcross e zhat) in
+(* the received direction is in the plane of incidence when it has the ray's azimuth *)
+Theorem pol_basis_plane_of_incidence : forall e phi r,
+  (vnorm (vcross e zhat) <> 0 -> vdot (vcross e zhat) r = 0 -> vdot (us0 e phi) r = 0) /\
+  (vnorm (vcross e zhat) = 0 -> vx r * sin phi - vy r * cos phi = 0 -> vdot (us0 e phi) r = 0) /\
+  vdot (us0 e phi) (us0 e phi) = 1 /\ vdot (us0 e phi) e = 0.
+Proof. exact pol_basis_plane_lemma. Qed.
+Print Assumptions pol_basis_plane_of_incidence.
+
+Theorem pol_amplitudes_le_norm : forall e phi p,
+  let u_s0 := us0 e phi in
   let u_p0 := vnormalize (vcross u_s0 e) in
   vdot p u_s0 * vdot p u_s0 + vdot p u_p0 * vdot p u_p0 <= vdot p p.
 Proof. exact pol_amplitudes_bounded. Qed.
 Print Assumptions pol_amplitudes_le_norm.
 
-(* exactly vertical emitted direction: the construction as written returns zero vectors *)
-Theorem pol_basis_vertical_refuted : exists e r, vdot e e = 1 /\ vdot r r = 1 /\
+(* without the vertical-ray case the construction returns zero vectors (design finding F12a,
+   repaired in pyrex; the translator refuses a propagate() that lacks the case) *)
+Theorem pol_basis_without_vertical_case_refuted : exists e r, vdot e e = 1 /\ vdot r r = 1 /\
   let u_s0 := vnormalize (vcross e zhat) in
   let u_p1 := vnormalize (vcross u_s0 r) in
   u_s0 = (0, 0, 0) /\ u_p1 = (0, 0, 0) /\ vdot u_s0 u_s0 <> 1.
-Proof. exact pol_basis_vertical_refuted_stmt. Qed.
-Print Assumptions pol_basis_vertical_refuted.
+Proof. exact pol_basis_without_vertical_case_refuted_stmt. Qed.
+Print Assumptions pol_basis_without_vertical_case_refuted.
